@@ -103,6 +103,7 @@ func (p *defaultPoll) Wait() (err error) {
 		if n == p.size && p.size < 128*1024 {
 			p.Reset(p.size<<1, caps)
 		}
+		vp(vpPollWait, unsafe.Pointer(p), int64(msec), int64(n))
 		n, err = EpollWait(p.fd, p.events, msec)
 		if err != nil && err != syscall.EINTR {
 			return err
@@ -141,7 +142,9 @@ func (p *defaultPoll) handler(events []epollevent) (closed bool) {
 		// trigger or exit gracefully
 		if operator.FD == p.wop.FD {
 			// must clean trigger first
+			vp(vpPollDrain, unsafe.Pointer(p), 0, 0)
 			syscall.Read(p.wop.FD, p.buf)
+			vp(vpPollRearm, unsafe.Pointer(p), 0, 0)
 			atomic.StoreUint32(&p.trigger, 0)
 			// if closed & exit
 			if p.buf[0] > 0 {
@@ -231,16 +234,19 @@ func (p *defaultPoll) handler(events []epollevent) (closed bool) {
 
 // Close will write 10000000
 func (p *defaultPoll) Close() error {
+	vp(vpPollCloseMsg, unsafe.Pointer(p), 0, 0)
 	_, err := syscall.Write(p.wop.FD, []byte{1, 0, 0, 0, 0, 0, 0, 0})
 	return err
 }
 
 // Trigger implements Poll.
 func (p *defaultPoll) Trigger() error {
+	vp(vpPollTrigAdd, unsafe.Pointer(p), 0, 0)
 	if atomic.AddUint32(&p.trigger, 1) > 1 {
 		return nil
 	}
 	// MAX(eventfd) = 0xfffffffffffffffe
+	vp(vpPollTrigMsg, unsafe.Pointer(p), 0, 0)
 	_, err := syscall.Write(p.wop.FD, []byte{0, 0, 0, 0, 0, 0, 0, 1})
 	return err
 }
